@@ -456,7 +456,8 @@ def gen_circuits(J, rng, quick):
         cases.append(("UCCSD", 2, 2, utd, lambda utd=utd: UCCSD(mol(2, 2), mapping="JW", up_then_down=utd), 6 if quick else 24))
         cases.append(("UpCCGSD", 2, 2, utd, lambda utd=utd: UpCCGSD(mol(2, 2), mapping="JW", up_then_down=utd, k=1), 6 if quick else 24))
         cases.append(("UCCGD", 2, 2, utd, lambda utd=utd: UCCGD(mol(2, 2), mapping="JW", up_then_down=utd), 6 if quick else 24))
-        cases.append(("UCCSD", 3, 2, utd, lambda utd=utd: UCCSD(mol(3, 2), mapping="JW", up_then_down=utd), 1 if quick else 8))
+        if not quick or not utd:
+            cases.append(("UCCSD", 3, 2, utd, lambda utd=utd: UCCSD(mol(3, 2), mapping="JW", up_then_down=utd), 1 if quick else 8))
         if not quick:
             cases.append(("UCCSD", 3, 4, utd, lambda utd=utd: UCCSD(mol(3, 4), mapping="JW", up_then_down=utd), 1 if quick else 8))
             cases.append(("UpCCGSD", 3, 2, utd, lambda utd=utd: UpCCGSD(mol(3, 2), mapping="JW", up_then_down=utd, k=1), 1 if quick else 6))
@@ -678,7 +679,7 @@ def history_instances(quick):
            # stabiliser engine at Clifford points: 6 and 8 qubits (H4-sized)
            # 6 qubits, ring engine (rotations of pi/4 per word: a mis-assigned angle inside one excitation shows; at
            # Clifford points it often does not - measured with the UpCCGSD layer-offset mutant)
-           ("UpCCGSD", 3, 2, False, 2, "ring", 3 if q else 8), ("UCCSD", 3, 2, False, 1, "ring", 1 if q else 4),
+           ("UpCCGSD", 3, 2, False, 2, "ring", 2 if q else 8), ("UCCSD", 3, 2, False, 1, "ring", 1 if q else 4),
            ("UCCSD", 3, 2, False, 1, "cliff", 0 if q else 6), ("UpCCGSD", 3, 2, False, 2, "cliff", 0 if q else 8),
            ("UCCSD", 4, 4, False, 1, "cliff", 2 if q else 10), ("UpCCGSD", 4, 4, False, 2, "cliff", 4 if q else 14),
            ("pUCCD", 4, 4, False, 1, "cliff", 1 if q else 6)]
